@@ -35,6 +35,8 @@ def json_specials():
         dict(name="JYaml", fields=[f("y1", "[]int", "slice", 'yaml:"y1"'), f("y2", "fp.Option[int]", "option", 'db:"y2"'), f("y3", "*int", "pointer", 'xml:"y3"'),
                                    f("y4", "string", "basic", 'yaml:"y4"'), f("y5", "map[string]int", "map", 'yaml:"y5,omitempty"'), f("y6", "int", "basic", 'yaml:"y6"')],
              json=True, labelled=False, tparams=[]),
+        dict(name="JGen", fields=[f("key", "K", "typeparam"), f("val", "V", "typeparam"), f("opt", "fp.Option[V]", "option"), f("list", "[]V", "slice")], json=True, labelled=False,
+             tparams=[("K", "comparable"), ("V", "any")], inst="JGen[string, int]"),
         dict(name="JOne", fields=[f("only", "[]int", "slice")], json=True, labelled=True, tparams=[]),
         dict(name="JPub", fields=[dict(vis="public", name="Pub1", typ="int", kind="basic", tag=""), f("priv", "[]string", "slice"), dict(vis="public", name="Pub3", typ="map[string]int", kind="map", tag="")],
              json=True, labelled=False, tparams=[]),
